@@ -529,7 +529,7 @@ def _m34():
     ms.Makefile.include = include
 
 
-def _patch_source(owner, name, old, new):
+def _patch_source(owner, name, old, new, mangle=False):
     """re-compile one function/method of the live code with a textual change (the mutant lives in
     the worker process only)"""
     import inspect
@@ -542,6 +542,10 @@ def _patch_source(owner, name, old, new):
     src = textwrap.dedent(inspect.getsource(fn))
     assert old in src, (name, old)
     src = src.replace(old, new)
+    if mangle:
+        # private names (self.__x) are mangled at class-compile time; do it by hand
+        src = re.sub(r'\b(self|cls)\.__(?!\w*__\b)(\w+)',
+                     lambda m: '%s._%s__%s' % (m.group(1), owner.__name__.lstrip('_'), m.group(2)), src)
     if src.lstrip().startswith('@'):
         src = src[src.index('def '):]
     glb = fn.__globals__
@@ -1260,3 +1264,13 @@ def _m98():
     from bfg9000.builtins import link as bl
     _patch_source(bl.StaticLink, '_fill_output', "libs=self.user_libs,",
                   "libs=[i for i in self.user_libs if isinstance(i, StaticLibrary)],")
+
+
+@mutant('path_escape_check_basename_only')
+def _m99():
+    # BasePath.__init__: only a *trailing* '..' counts as leaving the root
+    from bfg9000.platforms import basepath as bb
+    _patch_source(bb.BasePath, '__init__', """    if ( normpath == posixpath.pardir or
+         normpath.startswith(posixpath.pardir + posixpath.sep) ):""",
+                  """    if ( posixpath.basename(normpath) == posixpath.pardir and
+         True ):""", mangle=True)
